@@ -37,6 +37,7 @@ type Env struct {
 	cloVal *Val // closure value whose captured variables are visible by name
 	cloFn  *ssa.Function
 	depth  int
+	binds  map[string]*ssa.Function
 }
 
 func (e *Env) with(st *State) *Env {
@@ -822,6 +823,34 @@ func (e *Env) trCall(x *Call) Val {
 		h := vc.heap(e.st, vc.arrHeapName(t))
 		el := goTy(t)
 		return Val{S: "(select " + h + " " + r + ")", Ty: &Ty{L: "seq", Elem: &el}}
+	case "captured":
+		// captured(f, v): the current value of variable v captured by the closure bound to parameter f
+		id, ok1 := x.Args[0].(*Ident)
+		vn, ok2 := x.Args[1].(*Ident)
+		if !ok1 || !ok2 {
+			specFail("captured(param, variable)")
+		}
+		var fn *ssa.Function
+		if e.fr != nil {
+			fn = e.fr.topFrame().bind[id.Name]
+		}
+		if fn == nil && e.binds != nil {
+			fn = e.binds[id.Name]
+		}
+		if fn == nil {
+			specFail("captured: parameter %s is not bound to a closure", id.Name)
+		}
+		cv := e.trVal(x.Args[0])
+		for i, fv := range fn.FreeVars {
+			if fv.Name() == vn.Name {
+				vc.useCloEnv(i)
+				ref := fmt.Sprintf("(clo_env_%d %s)", i, cv.S)
+				pt := fv.Type().(*types.Pointer)
+				pv := Val{T: fv.Type(), S: ref, A: &Addr{Kind: aHeap, Ref: ref, BaseT: pt.Elem()}}
+				return vc.load(e.st, pv, nil, "")
+			}
+		}
+		specFail("captured: %s does not capture %s", fn.Name(), vn.Name)
 	case "cellat":
 		// cellat(T, ref): the value of type T stored at heap reference ref
 		t := vc.typeArg(x.Args[0])
